@@ -3,7 +3,8 @@ import LexgenModel.Spec.Machine
 # The decidable checker establishes the hypotheses of the run-time theorems
 
 `machineWF` is evaluated by `lexmodel stage` on the machine the macro actually produced (dump
-hooks); when all its clauses hold, `MachineOK` holds for any configuration built on that machine.
+hooks) and the set of inlined states the macro reported; when all its clauses hold, `MachineOK` holds
+for any configuration built on that machine with that set of inlined states.
 -/
 namespace Lexgen
 variable {σ τ ε : Type}
@@ -14,14 +15,14 @@ theorem isEmpty_eq_nil {α : Type} (l : List α) (h : l.isEmpty = true) : l = []
   | cons a t => simp at h
 
 theorem machineOK_of_checker (cfg : Config σ τ ε) (nCtx : Nat)
-    (h : (machineWF cfg.dfa cfg.entries nCtx).all = true) : MachineOK cfg := by
+    (h : (machineWF cfg.dfa cfg.entries nCtx cfg.inl).all = true) : MachineOK cfg := by
   simp only [WFReport.all, machineWF, Bool.and_eq_true] at h
-  obtain ⟨⟨⟨⟨⟨⟨⟨⟨hentries, htargets⟩, _hranges⟩, _hchars⟩, heoi⟩, hany⟩, hflags⟩, _hctx⟩, hstate0⟩ := h
+  obtain ⟨⟨⟨⟨⟨⟨⟨⟨⟨hentries, htargets⟩, _hranges⟩, _hchars⟩, heoi⟩, hany⟩, hflags⟩, _hctx⟩, hstate0⟩, hinl⟩ := h
   refine
     { flags := hflags
       acceptAny := hany
       targets := htargets
-      initNotInlined := initialNotInlined cfg.dfa
+      inl := inlOK_sound cfg.dfa cfg.inl hinl
       state0 := ?_
       entries := ?_
       eoiAccept := ?_ }
